@@ -83,20 +83,22 @@ type Fault struct {
 }
 
 type Opts struct {
-	Sched    *common.Rng // job completion order (nil: as they come)
-	Faults   []Fault     // transient faults injected into tier2 jobs (each costs one retry inside the worker)
-	Feed     func(h bstream.Handler, start uint64, stop uint64, cursor string) error // custom linear feed (forks); nil = canonical chain
-	OnPipe   func(p *pipeline.Pipeline)
-	Timeout  time.Duration
-	WaitRamp bool // let the first job take >4 s so that the real worker pool leaves its ramp-up phase (workers > 1 really run in parallel)
+	Sched      *common.Rng                                                             // job completion order (nil: as they come)
+	Faults     []Fault                                                                 // transient faults injected into tier2 jobs (each costs one retry inside the worker)
+	Feed       func(h bstream.Handler, start uint64, stop uint64, cursor string) error // custom linear feed (forks); nil = canonical chain
+	OnPipe     func(p *pipeline.Pipeline)
+	Timeout    time.Duration
+	RealWorker bool // the REAL work.RemoteWorker (retry loop, back-off sleeps, error classification) in front of in-process tier-2 jobs (realworker.go); Faults may then also be "exec"
+	WaitRamp   bool // let the first job take >4 s so that the real worker pool leaves its ramp-up phase (workers > 1 really run in parallel)
 }
 
 type Result struct {
-	Msgs    []Msg
-	Err     error
-	Jobs    []string // "stage/segment" in start order
-	Retries int
-	Pipe    *pipeline.Pipeline
+	Msgs       []Msg
+	Err        error
+	Jobs       []string // "stage/segment" in start order
+	Retries    int
+	Tier2Codes []string // real worker: the status codes tier 2 answered for failed attempts
+	Pipe       *pipeline.Pipeline
 }
 
 func (r *Result) ErrClass() string {
@@ -183,16 +185,18 @@ type sysWorker struct {
 }
 
 type runEnv struct {
-	dir     string
-	req     Req
-	opts    Opts
-	mu      sync.Mutex
-	jobs    []string
-	retries int
-	nStart  int
-	waiting []chan struct{}
-	running int
-	t0      time.Time
+	dir        string
+	req        Req
+	opts       Opts
+	mu         sync.Mutex
+	jobs       []string
+	retries    int
+	nStart     int
+	waiting    []chan struct{}
+	running    int
+	t0         time.Time
+	attempts   map[int]int
+	tier2Codes []string
 }
 
 func (w *sysWorker) ID() string { return strconv.Itoa(w.id) }
@@ -235,7 +239,9 @@ func (w *sysWorker) Work(ctx context.Context, unit stage.Unit, startBlock uint64
 				where = faults[attempt]
 			}
 			if where == "before" {
-				env.mu.Lock(); env.retries++; env.mu.Unlock()
+				env.mu.Lock()
+				env.retries++
+				env.mu.Unlock()
 				continue
 			}
 			failAt := int64(-1)
@@ -250,7 +256,9 @@ func (w *sysWorker) Work(ctx context.Context, unit stage.Unit, startBlock uint64
 				if attempt > 50 {
 					return work.MsgJobFailed{Unit: unit, Error: fmt.Errorf("too many attempts: %w", err)}
 				}
-				env.mu.Lock(); env.retries++; env.mu.Unlock()
+				env.mu.Lock()
+				env.retries++
+				env.mu.Unlock()
 				continue
 			}
 			break
@@ -285,6 +293,12 @@ func (env *runEnv) waitTurn() {
 }
 
 func runTier2(ctx context.Context, env *runEnv, request *pbssinternal.ProcessRangeRequest, failAt int64) error {
+	return runTier2T(ctx, env, request, failAt, 0)
+}
+
+// runTier2T: blockTimeout 0 keeps the test constructor's zero value (the per-block context is then born expired, which
+// nothing observes as long as no wasm call fails with a non-panic error)
+func runTier2T(ctx context.Context, env *runEnv, request *pbssinternal.ProcessRangeRequest, failAt int64, blockTimeout time.Duration) error {
 	sf := func(ctx context.Context, h bstream.Handler, startBlockNum int64, stopBlockNum uint64, cursor string, finalBlocksOnly bool, cursorIsTarget bool, logger *zap.Logger, extraOpts ...stream.Option) (service.Streamable, error) {
 		return &feeder{Shutter: shutter.New(), run: func() error {
 			// tier2 only reads final blocks: everything below the hand-off is final
@@ -292,6 +306,9 @@ func runTier2(ctx context.Context, env *runEnv, request *pbssinternal.ProcessRan
 		}}, nil
 	}
 	svc := service.TestNewServiceTier2(false, sf)
+	if blockTimeout > 0 {
+		service.WithBlockExecutionTimeout(blockTimeout)(svc)
+	}
 	return svc.TestProcessRange(ctx, request, func(substreams.ResponseFromAnyTier) error { return nil })
 }
 
@@ -339,6 +356,9 @@ func (w *World) Run(dir string, req Req, opts Opts) *Result {
 			return canonFeed(h, start, stopBlockNum, req.Final, req.Head, -1)
 		}}, nil
 	}
+	if opts.RealWorker {
+		wf = realWorkerFactory(env)
+	}
 	workers := req.Workers
 	if workers < 1 {
 		workers = 1
@@ -351,6 +371,12 @@ func (w *World) Run(dir string, req Req, opts Opts) *Result {
 	}
 	preq := &pbsubstreamsrpc.Request{StartBlockNum: req.Start, StopBlockNum: req.Stop, StartCursor: req.Cursor, Modules: w.Modules(), OutputModule: req.Output, ProductionMode: req.Prod}
 	ctx := NewCtx()
+	if opts.RealWorker {
+		ctx = reqctx.WithTier2RequestParameters(ctx, reqctx.Tier2RequestParameters{
+			BlockType: BlockType, StateBundleSize: req.Seg, StateStoreURL: filepath.Join(dir, "store"), StateStoreDefaultTag: "tag",
+			MergedBlockStoreURL: filepath.Join(dir, "merged"), MeteringConfig: "null://", FirstStreamableBlock: bstream.GetProtocolFirstStreamableBlock,
+		})
+	}
 	to := opts.Timeout
 	if to == 0 {
 		to = 60 * time.Second
@@ -400,7 +426,7 @@ func (w *World) Run(dir string, req Req, opts Opts) *Result {
 	}
 	res.Err = err
 	env.mu.Lock()
-	res.Jobs, res.Retries = env.jobs, env.retries
+	res.Jobs, res.Retries, res.Tier2Codes = env.jobs, env.retries, env.tier2Codes
 	env.mu.Unlock()
 	return res
 }
